@@ -57,6 +57,7 @@ func C20(c *Ctx) {
 	r.Rule("R20.10", "a snapshot covers only what the executor has persisted: lastExec / appliedIndex advance when a block is handed to the executor, not when it is durable; the raft log below a snapshot is never replayed after a restart, so the position handed to TakeSnapshot in maybeTriggerSnapshot is bounded by state that reportState (the executor's acknowledgement) maintains - it derives from a Node field assigned on the reportState path, or the call lies behind a comparison with such a field. Otherwise a crash between minting the snapshot height and persisting it loses those blocks for ever (the entries are below the snapshot; every later entry is dropped as Height != lastExec+1).")
 	c.c20SnapshotBound()
 	c.c20SeqBase()
+	c.c20LastExecOwner()
 	r.Rule("R20.8", "state sync delivers every height: in StateSyncer.SyncCFTBlocks a range whose fetch failed is not skipped - the retry of the fetch is unbounded (no strategy.Limit), or the error after the retry ends the sync with an error instead of being logged while the loop goes on to the next range; a skipped range is a gap in the heights handed to the executor.")
 	r.Rule("R20.9", batchedMarkText)
 	c.batchedMarks("R20.9")
